@@ -28,7 +28,7 @@ Valid(F) == { i \in DOMAIN F : F[i].valid }
 (* are observations, not verdicts, for the clauses that need the classes.                        *)
 Other(f) == IF f.strand = 0 THEN f["end"] ELSE f.start
 PlainAmbiguous(e) ==
-    e.kind = "plain" /\ \E i, j \in Valid(e.frags) :
+    e.ev # "probe" /\ e.kind = "plain" /\ \E i, j \in Valid(e.frags) :
         LET f == e.frags[i] g == e.frags[j] IN
         /\ i < j /\ f.cell = g.cell /\ f.strand = g.strand /\ f.contig = g.contig
         /\ Abs(f.site - g.site) > e.radius /\ Abs(Other(f) - Other(g)) <= e.radius
@@ -45,11 +45,17 @@ MolRecs(m) == [j \in DOMAIN m.recs |-> FragRec(m.recs[j])]
 RoundVerdict(e, round) ==
     LET F == e.frags
         em == MolEmits(round)
-        real == { k \in DOMAIN round : ~round[k].ov }
-        ovs == DOMAIN round \ real
+        yinv == Has(e, "yinv") /\ e.yinv                 \* yield_invalid: every invalid fragment is handed out as a molecule of its own
+        InvMol(k) == \A x \in SeqSet(em[k].ids) : ~F[x].valid
+        real == { k \in DOMAIN round : ~round[k].ov /\ ~(yinv /\ InvMol(k)) }
+        ovs == { k \in DOMAIN round : round[k].ov }
         ovIds == UNION { SeqSet(em[k].ids) : k \in ovs }
+        Fall == [i \in DOMAIN F |-> [F[i] EXCEPT !.valid = TRUE]]
     IN IF \E k \in DOMAIN em : ~IdsOk(F, em[k].ids) \/ em[k].ids = <<>> THEN "malformed_ids"
-       ELSE IF ~ExactlyOnce(F, em) THEN "Inv_C06_Partition"
+       ELSE IF ~yinv /\ ~ExactlyOnce(F, em) THEN "Inv_C06_Partition"
+       ELSE IF yinv /\ ~ExactlyOnce(Fall, em) THEN "Inv_C06_Partition"
+       ELSE IF yinv /\ \E k \in DOMAIN em : (InvMol(k) /\ Len(em[k].ids) > 1) \/ (~InvMol(k) /\ \E x \in SeqSet(em[k].ids) : ~F[x].valid)
+            THEN "Inv_C06_Partition_invalid_fragment_in_a_molecule"
        ELSE IF \E k \in DOMAIN em : ~Homogeneous(e.kind, e.radius, F, SeqSet(em[k].ids)) THEN "Inv_C06_Homogeneous"
        ELSE IF \E k \in DOMAIN em : ~Linked(e.hd, F, SeqSet(em[k].ids)) THEN "Inv_C06_Linked"
        ELSE IF e.cap = 0 /\ ovs # {} THEN "Inv_C06_Exact_overflow_without_cap"
@@ -103,7 +109,7 @@ ReuseVerdict(e) ==
         emR == MolEmits(ru)
     IN IF e.reuse.raised # "" THEN "Inv_C06_Reuse_raised_" \o e.reuse.raised
        ELSE IF \E k \in DOMAIN emR : ~IdsOk(F, emR[k].ids) \/ emR[k].ids = <<>> THEN "malformed_ids"
-       ELSE IF ~ExactlyOnce(F, emR) THEN "Inv_C06_Reuse_Partition"
+       ELSE IF ~ExactlyOnce(IF Has(e, "yinv") /\ e.yinv THEN [i \in DOMAIN F |-> [F[i] EXCEPT !.valid = TRUE]] ELSE F, emR) THEN "Inv_C06_Reuse_Partition"
        ELSE IF \E k \in DOMAIN ru : ~OnePrimary(MolRecs(ru[k])) THEN "Inv_C06_Reuse_OnePrimary"
        ELSE IF \E k \in DOMAIN ru : LET rs == MolRecs(ru[k]) IN ~(rs[1].tf >= Len(rs) /\ Counts(rs, rs[1].tf - Len(rs))) THEN "Inv_C06_Reuse_Counts"
        ELSE IF GroupsOf(emR) # GroupsOf(emF) THEN "Inv_C06_Reuse_partition_differs_from_fresh"
@@ -161,7 +167,8 @@ NotViaRepresentative(e) ==
         \E k \in 2 .. Len(us) : ~UmiClose(e.hd, us[k], RepOf(SubSeq(us, 1, k - 1)))
 
 Remark(e) ==
-    IF e.ev = "sched" /\ ~InRegion(e) THEN "outside_c07_region"
+    IF e.ev = "probe" THEN (IF e.raised # "" THEN "probe_" \o e.what \o "_raised_" \o e.raised ELSE "")
+    ELSE IF e.ev = "sched" /\ ~InRegion(e) THEN "outside_c07_region"
     ELSE IF NotViaRepresentative(e) THEN "divergence_member_not_within_hd_of_most_common_umi"
     ELSE IF PlainAmbiguous(e) THEN "plain_ambiguous_anchor"
     ELSE IF e.ev = "sched" /\ e.model # <<>> /\ e.runs[1].raised = ""
@@ -170,6 +177,7 @@ Remark(e) ==
 
 Verdict(e) == CASE e.ev = "lib"   -> LibVerdict(e)
                 [] e.ev = "sched" -> SchedVerdict(e)
+                [] e.ev = "probe" -> "ok"          \* observation only (see Remark)
                 [] OTHER -> "unknown_event"
 
 TInit == l = 1
